@@ -179,7 +179,9 @@ def two_program_path(stats, files, main, options=()):
         case = {"files": files, "main": main, "step": "cli", "options": options}
         stats.case(["cli", files, main, options], True, ["cli-two-program"] + ["option:" + o for o in options], sample=None)
         if a.returncode or b.returncode or c.returncode:
-            if not (a.returncode and c.returncode):
+            # a module may be rejected by the front end or only by the back end (e.g. a bad enum_case):
+            # the two paths agree when either stage of the split path fails exactly when embossc fails
+            if bool(a.returncode or b.returncode) != bool(c.returncode):
                 stats.fail({"kind": "cli-exit-codes"}, case, "front=%d back=%d embossc=%d\n%s\n%s\n%s" % (a.returncode, b.returncode, c.returncode, a.stderr[-500:], b.stderr[-500:], c.stderr[-500:]))
             return
         one = open(os.path.join(d, "one.h")).read()
